@@ -18,8 +18,7 @@ pub fn generate(thorough: bool, seed: u64, em: &mut Emitter) {
         let mut rc = r.fork();
         let r = &mut rc;
         let depth = 2 + r.below(3) as u32;
-        let claims = gen::gen_object(r, depth, 3, 1);
-        let marks = gen::gen_marking(r, &claims, true);
+        let (claims, marks) = gen::claims_and_marking(r, i, depth, 3);
         let alg = indep::ALGS[i % 3];
         let opts = RefOpts { alg: alg.to_string(), decoys: r.chance(1, 2), odd_format: r.chance(1, 2) };
         let mut tok = ref_issue(r, &claims, &marks, &opts);
